@@ -106,7 +106,7 @@ def m_big_divrem(ex, a, callee, canon):
     return Big(bigdiv(x, y) if canon.endswith("div") else bigrem(x, y))
 
 
-@model(r"^<BigInt as (num_traits::)?ToPrimitive>::to_(i32|i64|u32|u64)$")
+@model(r"^<BigInt as (num_traits::)?ToPrimitive>::to_(i32|i64|u32|u64|usize|isize)$")
 def m_big_to_prim(ex, a, callee, canon):
     t = deref(a[0]).t
     ty = canon.rsplit("to_", 1)[1]
